@@ -18,6 +18,20 @@ ACCESSORS = {
 COPIES = ["nexrad_decode::util::get_datetime", "nexrad_data::volume::util::get_datetime"]
 
 
+def accessor(chk, prog, ev, acc, no_panic=False):
+    """one date-time accessor held to its closed form (also used by the checks of the messages that carry it)"""
+    dfield, dty, tfield, tty, unit = ACCESSORS[acc]
+    got, fn = eval_or_blind(chk, ev, "VN", acc)
+    if got is None:
+        return 0
+    d16 = F(dfield) if dty == "u16" else cast(F(dfield), dty, "u16")
+    want = cm.spec_instant(cast(d16, "u16", "i64"), unit, cast(F(tfield), tty, "i64"))
+    expect(chk, "VN", acc, got, want, fn.where(), "instant = epoch + (%s - 1) days + %s x %d ms" % (dfield, tfield, unit))
+    if no_panic:
+        panics.check_no_panic(chk, prog, [c for c in COPIES if prog.fn(c) is not None] + [acc], "date-time accessor")
+    return 1
+
+
 def run(chk, tier):
     prog, info = common.program("all")
     common.note_extraction(chk, info, prog)
@@ -67,14 +81,8 @@ def run(chk, tier):
 
     # the accessors
     n = 0
-    for acc, (dfield, dty, tfield, tty, unit) in ACCESSORS.items():
-        got, fn = eval_or_blind(chk, ev, "VN", acc)
-        if got is None:
-            continue
-        n += 1
-        d16 = F(dfield) if dty == "u16" else cast(F(dfield), dty, "u16")
-        want = cm.spec_instant(cast(d16, "u16", "i64"), unit, cast(F(tfield), tty, "i64"))
-        expect(chk, "VN", acc, got, want, fn.where(), "instant = epoch + (%s - 1) days + %s x %d ms" % (dfield, tfield, unit))
+    for acc in ACCESSORS:
+        n += accessor(chk, prog, ev, acc)
     chk.floor("date-time accessors", n, 6)
 
     # Radial::collection_timestamp is the header's instant in epoch milliseconds (wiring is C07's; the unit is checked here)
